@@ -177,4 +177,5 @@ def run(res):
                 "(with stalled validators / collector so that queues are full); each under a seeded H1 schedule; non-trivial = distinct (kind, signal sent, schedule, size)")
     res.min_nontrivial = 30 if res.tier == "quick" else 60
     res.assumptions = ["a single stop signal (a second one is documented as ungraceful)", "the upstream of a pipe keeps delivering or closes",
+                       "a signal is delivered once the tool has installed its handler (/proc/<pid>/status SigCgt; bounded wait of 5 s, then it is sent anyway)",
                        "thorough tier runs the exact shipped profile (LTO, 1 CGU)"]
